@@ -62,7 +62,7 @@ class Runner:
 
         if isinstance(func, functools.partial):
             base = func.func
-            if getattr(base, "__symx_clone__", False) or getattr(base, "__name__", None) in self.kernels or \
+            if getattr(base, "__symx_clone__", False) or getattr(base, "__symx_kernel__", False) or getattr(base, "__name__", None) in self.kernels or \
                     (getattr(base, "__module__", "") or "").startswith("numpy"):
                 kw = dict(func.keywords)
                 kw.update(kwargs)
@@ -80,8 +80,8 @@ class Runner:
         k = self.kernels.get(name)
         if k is not None:
             return k(*args, **kwargs)
-        if getattr(func, "__symx_clone__", False):
-            return func(*args, **kwargs)  # the repository's own (cloned) block function
+        if getattr(func, "__symx_clone__", False) or getattr(func, "__symx_kernel__", False):
+            return func(*args, **kwargs)  # the repository's own (cloned) block function, or one the harness supplies as the user's
         if any(isinstance(a, SArr) for a in args) or any(isinstance(a, SArr) for a in kwargs.values()) or \
                 any(isinstance(a, (list, tuple)) and _has_sarr(a) for a in args):
             mod = getattr(func, "__module__", "") or ""
